@@ -20,9 +20,36 @@ NOT_APPLICABLE = {
 
 # claimed by DESIGN.md but whose check is not built yet (kept out of `checks` until it runs clean end to end)
 PENDING = {p: "in scope for deterministic simulation (DESIGN.md §5) but the check is not built yet in this revision; not claimed"
-           for p in ["C01", "C02", "C04", "C07", "C08", "C09", "C10", "C11", "C12", "C13", "C14", "C17", "C19"]}
+           for p in ["C04", "C07", "C08", "C09", "C10", "C11", "C12", "C13", "C14", "C17", "C19"]}
 
 PROPS = {
+    "C01": {
+        "level": "exploration",
+        "level_text": "seeded generation of call sequences x option subsets x rng/clock faults for a single caller, compared call by call with an executable reference model; no schedule is involved, the simulator contributes the model, the faulted rng/clock seams and the live-subscriber observation of 'emits nothing'",
+        "level_note": TRUST + "; the reference model (DESIGN.md appendix A) written from the documentation, flat scalar messages only (nested/oneof/map mask semantics are C05's subject)",
+        "technique": "deterministic simulation, single task: seeded op/option/fault sequences against an executable reference model (refinement check per call)",
+        "rule": ("call sequences are generated from the decision tape (length 1-30, ops and every option subset, ids, rng fault mode, clock jumps); a case is non-trivial when it has more than one call or at least one write option or fault; "
+                 "distinct = distinct sequences of (operation kind, option set) signatures among non-trivial runs"),
+        "scenarios": [
+            {"name": "seq-value", "quick": 60000, "thorough": 6000000, "thorough_time": 150},
+            {"name": "seq-coll", "quick": 100000, "thorough": 6000000, "thorough_time": 250},
+        ],
+        "require_hits": ["rng-colliding", "rng-exhausted", "clock-jump", "rng-short-read-error", "rng-zero"],
+        "assumptions": ["messages are flat (four scalar fields of TestAllTypes)", "writable-field sets are nil or non-empty"],
+    },
+    "C02": {
+        "level": "exploration",
+        "level_text": "seeded exploration of 2-4 writers interleaved at every hooked window of the optimistic read / change / lock / save / publish sequence; every history checked for linearizability against the reference model; evidence over sampled schedules",
+        "level_note": TRUST + "; porcupine v1.3.0 as linearizability checker; the reference model of DESIGN.md appendix A (validated against the implementation by C01)",
+        "technique": "deterministic simulation (seeded scheduler over simhook windows) + porcupine linearizability check against an executable reference model + conservation checks",
+        "rule": RULE_SCHED,
+        "scenarios": [
+            {"name": "lin-value", "quick": 40000, "thorough": 3000000, "thorough_time": 200},
+            {"name": "lin-coll", "quick": 40000, "thorough": 3000000, "thorough_time": 200},
+        ],
+        "require_hits": ["resource.gau.commit", "collection.delete.commit", "value.publish", "collection.publish"],
+        "assumptions": ["internal library goroutines react immediately", "preemption only at hook points", "operations of one step are treated as concurrent (sound, slightly permissive)"],
+    },
     "C03": {
         "level": "exploration",
         "level_text": "seeded exploration of writer/subscriber interleavings at every hooked window with true quiescence detection; evidence over the sampled schedules, not a proof",
